@@ -77,7 +77,23 @@ Section Decode.
 
   (* ---- precedence ---- *)
   Definition header_label (ct : str) : option str :=
-    if contains charset_eq ct then nonempty (Some (after_last_aux charset_eq ct [])) else None.
+    if contains charset_eq ct then nonempty (Some (until_semicolon (after_last_aux charset_eq ct []))) else None.
+
+  (* the label taken from the header ends where the next parameter begins *)
+  Lemma until_semicolon_no_semicolon s : ~ In 59 (until_semicolon s).
+  Proof.
+    induction s as [|c r IH]; [intros []|]. cbn [until_semicolon]. destruct (N.eqb c 59) eqn:E; [intros []|].
+    intros [H|H]; [subst c; discriminate E|exact (IH H)].
+  Qed.
+  Lemma header_label_no_semicolon ct l : header_label ct = Some l -> ~ In 59 l.
+  Proof.
+    unfold header_label. destruct (contains charset_eq ct); [|discriminate].
+    destruct (until_semicolon (after_last_aux charset_eq ct [])) as [|c r] eqn:E; [discriminate|].
+    intros H. injection H as <-. rewrite <- E. apply until_semicolon_no_semicolon.
+  Qed.
+  Example header_label_with_later_parameter :
+    header_label (s2l "text/html; charset=iso-8859-2; foo=bar") = Some (s2l "iso-8859-2").
+  Proof. vm_compute. reflexivity. Qed.
 
   (* 1. a (non-blank) charset in the Content-Type header wins over meta tag, prolog and detection *)
   Lemma precedence_header ct content l :
